@@ -364,10 +364,26 @@ pub fn install() {
     afc_verif::install(&HOOKS);
     let prev = std::panic::take_hook();
     std::panic::set_hook(Box::new(move |info| {
+        let file = info.location().map(|l| l.file().to_string()).unwrap_or_default();
+        LAST_PANIC_FILE.with(|f| *f.borrow_mut() = file);
         if QUIET.with(std::cell::Cell::get) == 0 {
             prev(info);
         }
     }));
+}
+
+thread_local! {
+    /// Source file of the most recent panic on this thread (set by the panic hook).
+    static LAST_PANIC_FILE: std::cell::RefCell<String> = const { std::cell::RefCell::new(String::new()) };
+}
+
+/// True when the most recent panic was raised by code of the repository under test (not by
+/// the harness, shuttle or std): such a panic is a finding about the library, not a harness bug.
+pub fn last_panic_in_library() -> bool {
+    LAST_PANIC_FILE.with(|f| {
+        let f = f.borrow();
+        f.contains("aranya-fast-channels/src") || f.contains("aranya-crypto/src") || f.starts_with("/repo/") || f.contains("/repo/crates/")
+    })
 }
 
 /// Runs `f` catching panics, with the panic hook silenced.
@@ -638,6 +654,9 @@ fn run_driver(driver: Driver, keep_logs: bool, workload: Workload) -> Result<Uni
             ("deadlock", "deadlock")
         } else if msg.starts_with("exceeded max_steps") {
             ("step-bound", "step-bound")
+        } else if last_panic_in_library() {
+            // A panic raised inside the code under test that no workload step caught.
+            ("library-panic", "library-panic")
         } else {
             ("harness-panic", "harness-panic")
         };
